@@ -10,6 +10,7 @@ type Case struct {
 	Path         string    `json:"path"`   // argument passed to Transpile (may be relative)
 	Target       string    `json:"target"` // bash | batch
 	ReturnScript bool      `json:"return_script,omitempty"`
+	Warmup       []string  `json:"warmup,omitempty"` // targets the SAME transpiler object transpiles this file for first (tsh -t batch -t bash); their results are dropped
 	ReturnTrace  bool      `json:"return_trace,omitempty"`
 }
 
